@@ -12,7 +12,8 @@ SPEC = {
     'deductive': [
         ('K-stop(exact)', 'do_stop', '.'),
         ('K-next(cut-offs, stop flag, metric wiring)', 'next', '^(cutoff:|stop:|wiring:(one-metric|metric))'),
-        ('K-first(cut-offs)', 'first', '^(cutoff:|stop:|fields:dist_obs)')],
+        ('K-first(cut-offs)', 'first', '^(cutoff:|stop:|fields:dist_obs)'),
+        ("_create_start_nodes(max_dist_init goes to the spatial query; distance, projection and relative position go unchanged into the start state)", 'start_nodes', r'^start:(spatial|one-first)')],
     'bounded': [
         ('cutoffs-and-nearest-points', suites.case_C05, 1500, 25000, RULE + '; ' + 'non-trivial = some candidate was cut off or the path has >= 2 states', '')],
 }
